@@ -535,7 +535,7 @@ def segy_item(kind, bs, rate, nb, props, opts=None):
         t0_ms, dt_ms = opts.get('t0_ms', 0), opts.get('dt_ms', 4)
         if opts.get('samples') == 'sym':
             t0_ms = E.fresh('t0_ms', -32768, 32767)
-            dt_ms = E.fresh('dt_ms', 1, 65)
+            dt_ms = E.fresh('dt_ms', 1, 32)      # 2-byte signed interval field: segyio replaces anything above 32767 us by its fallback
         dt_us_fp = None
         if opts.get('samples') == 'fp':
             # any whole number of microseconds: binary64 arithmetic of the sample axis is decided with z3's FP theory
@@ -545,7 +545,7 @@ def segy_item(kind, bs, rate, nb, props, opts=None):
             _fw.reset()
             _fw.CFG.update(z3_ms=20000, cvc5_s=opts.get('cvc5_s', 300), use_cvc5=True)
             t0_ms = E.fresh('t0_ms', *opts.get('t0_range', (-32768, 32767)))
-            dt_us_fp = E.fresh('dt_us', *opts.get('dt_range', (1, 65535)))
+            dt_us_fp = E.fresh('dt_us', *opts.get('dt_range', (1, 32767)))
             dt_ms = None
         else:
             import symx.core as _core
@@ -1055,7 +1055,8 @@ def items_for(prop, tier):
                           dict(fmt=1, ext=1), dict(fmt=1, ext=1, reduce_iops=True, ns_cap=2)):
                     if quick and bs != (4, 4, 256) and (o.get('ext') or o.get('fmt') == 5):
                         continue
-                    segy_cfgs.append(('regular', bs, rate, nb, o))
+                    # dimtop: the exact multiple of the block size is among the enumerated line counts (last plane set full)
+                    segy_cfgs.append(('regular', bs, rate, nb, dict(o, dimtop=True)))
         lays2 = [((1, 16, 256), 8, (3, 2)), ((1, 4, 1024), 8, (3, 2)), ((1, 64, 64), 8, (2, 2))] if quick else \
             [(l[0], l[1], nb) for l in thorough_layouts_2d()[::3] for nb in ((2, 2), (3, 1)) if nb[1] * l[0][2] <= 2 ** 15]
         for bs, rate, nb in lays2:
@@ -1093,16 +1094,18 @@ def items_for(prop, tier):
             cfgs.append(('2d', (1, 16, 256), 8, (1, 2), dict(samples='sym', dimcap=1)))
             # binary64 part: any whole-microsecond interval.  Each item is one (interval range, start-time range, trace
             # length) box; the solver time of a float query grows with the number of (interval, start) pairs in the box
-            fp_boxes = [((1, 4095), (-2, 2), 3), ((4096, 16383), (-2, 2), 3), ((16384, 32767), (-2, 2), 3), ((32768, 49151), (-2, 2), 3),
-                        ((49152, 65535), (-2, 2), 3), ((1, 999), (0, 0), 2), ((1, 999), (-1000, -1000), 7), ((1000, 1063), (7, 7), 100),
+            # (SEG-Y route: the interval field is a 2-byte signed number for segyio, which replaces anything above 32767 us by its
+            # 4000 us fallback - the source as segyio presents it; the boxes therefore end at 32767)
+            fp_boxes = [((1, 4095), (-2, 2), 3), ((4096, 16383), (-2, 2), 3), ((16384, 24575), (-2, 2), 3), ((24576, 32767), (-2, 2), 3),
+                        ((1, 999), (0, 0), 2), ((1, 999), (-1000, -1000), 7), ((1000, 1063), (7, 7), 100),
                         ((1000, 1001), (-32768, 32767), 3)]
             if not quick:
-                fp_boxes += [((lo, lo + 4095), (-16, 16), 3) for lo in range(1, 65535, 4096)]
-                fp_boxes += [((1000, 1999), (7, 7), 100), ((1000, 1031), (-32768, 32767), 3), ((1, 1023), (0, 0), 256), ((333, 333 + 63), (-32768, 32767), 5), ((65000, 65535), (-32768, -32000), 4), ((65000, 65535), (32000, 32767), 4)]
+                fp_boxes += [((lo, lo + 4095), (-16, 16), 3) for lo in range(1, 32767, 4096)]
+                fp_boxes += [((1000, 1999), (7, 7), 100), ((1000, 1031), (-32768, 32767), 3), ((1, 1023), (0, 0), 256), ((333, 333 + 63), (-32768, 32767), 5), ((32000, 32767), (-32768, -32000), 4), ((32000, 32767), (32000, 32767), 4)]
             for dtr, t0r, ns in fp_boxes:
-                dtr = (dtr[0], min(dtr[1], 65535))
+                dtr = (dtr[0], min(dtr[1], 32767))
                 cfgs.append(('regular', (4, 4, 256), 8, (1, 1, 1), dict(samples='fp', dt_range=dtr, t0_range=t0r, ilxl=(2, 2), dimcap=4, ns_fixed=ns)))
-            cfgs.append(('2d', (1, 16, 256), 8, (1, 1), dict(samples='fp', dt_range=(1, 65535), t0_range=(0, 0), dimcap=0, ns_fixed=3)))
+            cfgs.append(('2d', (1, 16, 256), 8, (1, 1), dict(samples='fp', dt_range=(1, 32767), t0_range=(0, 0), dimcap=0, ns_fixed=3)))
         if prop == 'C11':
             for fam in ('il-from-zero', 'il-interior', 'xl-from-zero', 'xl-interior', 'both-interior'):
                 for ri in (False, True):
@@ -1190,6 +1193,13 @@ def items_for(prop, tier):
                     (lambda kind=kind, bs=bs, nb=nb: segy_item(kind, bs, 8, nb, {'C20'}, dict(runs=2, fmt=1))), timeout_s=200)
             it.meta = dict(kind='segy-' + kind, bs=list(bs), rate=8, nb=list(nb), opts=dict(runs=2, fmt=1), prop='C20')
             items.append(it)
+            # the hash is of the samples alone: every header-detection mode (incl. 'strip', which stores no header) gives it
+            for det in ('strip', 'thorough') if quick else ('strip', 'thorough', 'exhaustive'):
+                o = dict(fmt=1, detection=det, varying=(73,), dimcap=1)
+                it = _I('segy-%s|C20|bs=%s|rate=8|nb=%s|detection=%s' % (kind, 'x'.join(map(str, bs)), 'x'.join(map(str, nb)), det),
+                        (lambda kind=kind, bs=bs, nb=nb, o=o: segy_item(kind, bs, 8, nb, {'C20'}, o)), timeout_s=200 if quick else 500)
+                it.meta = dict(kind='segy-' + kind, bs=list(bs), rate=8, nb=list(nb), opts=dict(o), prop='C20')
+                items.append(it)
     if prop == 'C03':
         from .runner import Item as _I2
         o = dict(headers=((181, 'i4'), (73, 'i8')), part='footer')      # header dict in non-ascending field order, mixed dtypes
